@@ -105,6 +105,7 @@ def collect(ctx, prop):
                 % (", ".join('"%s"' % i for i in ids), ", ".join('"%s"' % i for i in parses), ", ".join('"%s"' % i for i in minok), depth))
     emit = ctx.path("emit-reload.csv")
     r0 = ctx.tlc_ok("MC_Reload", cfg=cfg, env={"EMIT_FILE": emit}, workers=4)
+    rw = ctx.tlc_ok("Watch", cfg="MC_Watch.cfg", workers=4)       # the watched file (fsnotify debounce) on top of the pipeline
     hists = [json.loads(x) for x in sorted({json.dumps(h) for h in emitted_json_lines(emit)})]
     ctx.log("MC_Reload: %d states, %d histories emitted" % (r0["distinct"], len(hists)))
     if not quick:
@@ -126,6 +127,14 @@ def collect(ctx, prop):
         fmt = rng.choice(["yaml", "json"])
         H.append({"id": "b%d-%s" % (n, fmt), "fmt": fmt, "via": "unmarshal", "burst": True,
                   "docs": [{"doc": d, "text": text_of(P[d][0], fmt), "parses": True, "minok": True} for d in trip],
+                  "probes": probes, "users": ["admin", "bob", "carol", "dave"]})
+    # histories played through the file system (real fsnotify watcher + loader.NewLocalConfig, one-second debounce): they run
+    # side by side, so they cost a few seconds in all
+    nw = 16 if quick else 160
+    for n in range(nw):
+        docs = [rng.choice(good)] + [rng.choice(ids) if rng.random() < 0.75 else rng.choice(good) for _ in range(rng.choice([2, 3]))]
+        H.append({"id": "w%d" % n, "fmt": "yaml", "via": "watch",
+                  "docs": [{"doc": d, "text": text_of(P[d][0], "yaml"), "parses": P[d][1], "minok": P[d][2]} for d in docs],
                   "probes": probes, "users": ["admin", "bob", "carol", "dave"]})
     hf = ctx.path("hist.ndjson")
     with open(hf, "w") as f:
@@ -155,7 +164,7 @@ def collect(ctx, prop):
            "oracle_counts": cnt, "events": st["events"], "exhaustive": True, "pool": ids}
     return cov, ["the value a FRESH real loader publishes for the same text is the reference for 'equals a fresh start' (as the property states it)",
                  "published values are compared in the normal form of Go's encoding/json",
-                 "the fsnotify watcher itself is not driven (it calls the same Load)"], found
+                 "watched histories: the real fsnotify watcher is given a bounded time (30 s) to reload after a rewrite; a bad document is given 2.5 s in which nothing must change"], found
 
 
 def run(ctx, prop):
